@@ -137,7 +137,26 @@ func c06Reparent(e *Env) {
 					flat = append(flat, s)
 				}
 			}
+			// the variable holding the split-off node must still hold it when it is used as the new
+			// parent: no assignment to it (in any nested branch) between the split and that statement
+			stillSplit := func(at token.Pos) bool {
+				ok := true
+				ast.Inspect(blk, func(n ast.Node) bool {
+					if a, isA := n.(*ast.AssignStmt); isA && a.Pos() > as.End() && a.End() < at {
+						for _, l := range a.Lhs {
+							if id, isI := unparen(l).(*ast.Ident); isI && info.ObjectOf(id) == types.Object(nVar) {
+								ok = false
+							}
+						}
+					}
+					return true
+				})
+				return ok
+			}
 			for _, s := range flat {
+				if !stillSplit(s.Pos()) {
+					continue
+				}
 				switch x := s.(type) {
 				case *ast.RangeStmt:
 					if isSlice && usedVar(info, x.X) == f {
